@@ -6,6 +6,15 @@ evaluated inside Coq: the ordered sequence of reported levels must be identical
 to the model's, positions / means within the root finder's tolerance (compared
 over Q inside Coq).  Oracle: the property's own wording evaluated with
 fractions.Fraction on the implementation's output.
+
+Call forms and call histories (check_calls): the same numbers handed over as float64
+arrays that the check keeps, as strided / reversed / column views into larger arrays,
+as read-only arrays, as int64 / int32 / float32 arrays, with the abscissae in a list;
+one to three calls of regrid / build_head_mapping with those same objects (same and
+different grid step).  After every call the objects are compared bit for bit with a
+pristine copy ("the sampled series is not modified": otherwise the crossings reported
+are not crossings of the series the caller holds) and every call's result is judged
+by the same oracle against the pristine numbers, and by the Coq model.
 """
 import math
 from fractions import Fraction as F
@@ -171,7 +180,9 @@ def in_model_domain(s):
     return all(math.isfinite(v / s['step']) and abs(v / s['step']) < 2.0 ** 62 for v in s['y'])
 
 
-def check_regrid(series, out, label):
+def check_regrid(series, out, label, extra=()):
+    """extra: (case string, replayable case, result, description) of calls made elsewhere (check_calls) whose
+    results go through the same model comparison."""
     strs, results, kept = [], [], []
     for s in series:
         s = dict(s, x=[fl(v) for v in s['x']], y=[fl(v) for v in s['y']], step=fl(s['step']))
@@ -214,15 +225,21 @@ def check_regrid(series, out, label):
         strs.append(regrid_case_str(s, res))
         results.append(res)
         kept.append(case)
+    n_own = len(strs)
+    strs += [e[0] for e in extra]
     bad, errs, _ = C.run_case_shards(
         PROP, label, PRE, 'list float * list float * float * res (list (Z * float))', 'check_regrid_f', strs, shard=120)
     out.corr_errors += errs
     for i in bad:
+        if i >= n_own:
+            _, case, res, what = extra[i - n_own]
+            out.violation('corr', 'model regrid <> regrid.regrid, %s: impl=%s' % (what, str(res)[:400]), case=case)
+            continue
         out.violation('corr', 'model regrid <> regrid.regrid on x=%s y=%s step=%r: impl=%s'
                       % (kept[i]['x'], kept[i]['y'], kept[i]['step'], str(results[i])[:400]), case=kept[i])
 
 
-def check_mapping(cases, out, label):
+def check_mapping(cases, out, label, extra=()):
     strs, results, kept = [], [], []
     for c in cases:
         c = dict(step=fl(c['step']), series=[dict(x=[fl(v) for v in s['x']], y=[fl(v) for v in s['y']])
@@ -252,13 +269,189 @@ def check_mapping(cases, out, label):
         strs.append(mapping_case_str(c, res))
         results.append(res)
         kept.append(case)
+    n_own = len(strs)
+    strs += [e[0] for e in extra]
     bad, errs, _ = C.run_case_shards(
         PROP, label, PRE, 'list (list float * list float) * float * res (list (Z * list (nat * float)))',
         'check_head_mapping_f', strs, shard=30)
     out.corr_errors += errs
     for i in bad:
+        if i >= n_own:
+            _, case, res, what = extra[i - n_own]
+            out.violation('corr', 'model build_head_mapping <> fit_offsets.build_head_mapping, %s: impl=%s'
+                          % (what, str(res)[:400]), case=case)
+            continue
         out.violation('corr', 'model build_head_mapping <> fit_offsets.build_head_mapping (step=%r, series=%s): '
                       'impl=%s' % (kept[i]['step'], kept[i]['series'], str(results[i])[:400]), case=kept[i])
+
+
+# ------------------------------------------------------------- call forms and call histories
+
+JUNK = -7777.25         # what lies between the samples in the larger array a view is cut from
+
+
+def build_form(form, x, y):
+    """The objects handed to the function for the numbers x, y, and the larger arrays they are views of.
+    -> (x object, y object, [(name, object whose content must stay as it is)])"""
+    n = len(x)
+    if form in ('f64', 'f64-readonly'):
+        xa, ya = np.array(x, dtype='float64'), np.array(y, dtype='float64')
+        if form == 'f64-readonly':
+            xa.flags.writeable = False
+            ya.flags.writeable = False
+        return xa, ya, [('x', xa), ('y', ya)]
+    if form == 'f64-view':          # every other element of a longer array
+        bx, by = np.full(2 * n, JUNK), np.full(2 * n, JUNK)
+        bx[::2], by[::2] = x, y
+        return bx[::2], by[::2], [('the array x is a view of', bx), ('the array y is a view of', by)]
+    if form == 'f64-rev':           # a reversed view (negative stride)
+        bx, by = np.array(x[::-1], dtype='float64'), np.array(y[::-1], dtype='float64')
+        return bx[::-1], by[::-1], [('the array x is a view of', bx), ('the array y is a view of', by)]
+    if form == 'f64-col':           # two columns of one table (epoch, level, something else)
+        tab = np.full((n, 3), JUNK)
+        tab[:, 0], tab[:, 1] = x, y
+        return tab[:, 0], tab[:, 1], [('the table x and y are columns of', tab)]
+    if form == 'x-list':            # as in the example at the foot of regrid.py: abscissae in a list
+        xl, ya = list(x), np.array(y, dtype='float64')
+        return xl, ya, [('x', xl), ('y', ya)]
+    if form in ('int', 'int32'):
+        xa = np.array(x, dtype=form + '64' if form == 'int' else form) if all(v == int(v) for v in x) \
+            else np.array(x, dtype='float64')
+        ya = np.array(y, dtype='int64' if form == 'int' else 'int32')
+        return xa, ya, [('x', xa), ('y', ya)]
+    if form == 'f32':
+        x32 = np.array(x, dtype='float32')
+        xa = x32 if [float(v) for v in x32] == list(x) else np.array(x, dtype='float64')
+        ya = np.array(y, dtype='float32')
+        return xa, ya, [('x', xa), ('y', ya)]
+    raise ValueError(form)
+
+
+def snapshot(obj):
+    if isinstance(obj, np.ndarray):
+        return (obj.dtype.str, obj.shape, obj.strides, bool(obj.flags.writeable), obj.tobytes())
+    return (type(obj).__name__, repr(obj))
+
+
+def show(obj):
+    return str(obj.tolist() if isinstance(obj, np.ndarray) else obj)[:300]
+
+
+def make_step(step, stepform):
+    return int(step) if stepform == 'int' else np.float64(step) if stepform == 'np.float64' else float(step)
+
+
+def check_calls(histories, out):
+    """Each history: one set of objects, a sequence of calls with those same objects.  After every call: the objects are
+    compared bit for bit with their pristine copies, and the result is judged by the oracle against the pristine numbers.
+    Returns the case strings of every call for the model comparison (see check_regrid / check_mapping)."""
+    import spowtd.regrid as rg
+    import spowtd.fit_offsets as fo
+    extra_r, extra_m = [], []
+    for h in histories:
+        form = h['form']
+        case = dict(level='FL-calls', form=form, calls=h['calls'],
+                    series=[dict(x=[fl(v) for v in s['x']], y=[fl(v) for v in s['y']]) for s in h['series']])
+        objs, keep = [], []
+        for sid, s in enumerate(case['series']):
+            xa, ya, k = build_form(form, s['x'], s['y'])
+            objs.append((xa, ya))
+            keep += [('series %d: %s' % (sid, name), o) for name, o in k]
+        # the numbers the caller holds, read back from the objects (exact for every form)
+        held = [dict(x=[float(v) for v in xa], y=[float(v) for v in ya]) for xa, ya in objs]
+        if any(a != b for s, hd in zip(case['series'], held) for a, b in zip(s['x'] + s['y'], hd['x'] + hd['y'])):
+            raise AssertionError('generator: form %s does not hold the numbers exactly' % form)
+        pristine = [(name, o, snapshot(o), show(o)) for name, o in keep]
+        out.count('FL-calls:form=' + form)
+        out.count('FL-calls:history=' + ','.join(
+            '%s@%s' % (c['fn'], 'same' if c['step'] == h['calls'][0]['step'] else 'other') for c in h['calls']))
+        failed = False
+        for n, c in enumerate(h['calls']):
+            step = make_step(c['step'], c['stepform'])
+            what = ('call %d of %d with the same %s objects, %s(step=%r as %s)'
+                    % (n + 1, len(h['calls']), form, c['fn'], c['step'], c['stepform']))
+            out.evaluations += 1
+            out.count('FL-calls:%s:call-%d' % (c['fn'], n + 1))
+            out.count('FL-calls:stepform=' + c['stepform'])
+            try:
+                if c['fn'] == 'regrid':
+                    xa, ya = objs[c['i']]
+                    res = ('ok', [(int(k), float(v)) for k, v in rg.regrid(xa, ya, step)])
+                else:
+                    m = fo.build_head_mapping(tuple(objs) if n % 2 else list(objs), step)
+                    res = ('ok', [(int(k), [(int(sid), float(t)) for sid, t in v]) for k, v in m.items()])
+            except Exception as e:  # pylint: disable=broad-except
+                res = ('err', C.err_of(e))
+                out.violation('oracle', '%s raised %s: %s on a well-formed finite series (%s)'
+                              % (what, type(e).__name__, str(e)[:120], held[c['i'] or 0]), case=case)
+                failed = True
+            # (a) the sampled series is not modified
+            for name, o, snap, text in pristine:
+                if snapshot(o) != snap:
+                    out.violation('oracle', '%s modified the caller\'s data (%s): was %s, is now %s; the crossings '
+                                  'reported are then not crossings of the series the caller holds'
+                                  % (what, name, text, show(o)), case=case)
+                    failed = True
+                    break
+            # (b) the result of this call, against the pristine numbers
+            if res[0] == 'ok':
+                if c['fn'] == 'regrid':
+                    hd = held[c['i']]
+                    msgs = oracle_regrid(hd['x'], hd['y'], fl(c['step']), res[1])
+                    where = 'x=%s y=%s' % (hd['x'], hd['y'])
+                else:
+                    msgs = oracle_mapping(held, fl(c['step']), res[1])
+                    where = '%d series' % len(held)
+                for msg in msgs[:2]:
+                    out.violation('oracle', '%s, %s: %s' % (what, where, msg), case=case)
+                    failed = True
+                if n and not msgs:
+                    out.nontriv(('c', form, n, c['fn'], c['step'],
+                                 tuple((tuple(s['x']), tuple(s['y'])) for s in held)))
+            if c['fn'] == 'regrid':
+                hd = held[c['i']]
+                extra_r.append((regrid_case_str(dict(x=hd['x'], y=hd['y'], step=fl(c['step'])), res), case, res, what))
+            else:
+                extra_m.append((mapping_case_str(dict(series=held, step=fl(c['step'])), res), case, res, what))
+            if failed:
+                break           # later calls of the same history repeat the complaint
+    return extra_r, extra_m
+
+
+def call_probes(out):
+    """Input forms on which the unchanged tree does not meet the wording (recorded in the
+    input distribution, not judged): the ordinates in a Python list (TypeError: list / float), and float32 ordinates with a
+    step that is not a power of two (the quotient is rounded to float32, 1e-7 relative: a sample just above a level is
+    reported as lying on it)."""
+    import spowtd.regrid as rg
+    x = [0.0, 1.0, 2.0, 3.0]
+    try:
+        list(rg.regrid(np.array(x), [2.0, 5.25, -1.5, 3.0], 0.5))
+        r = 'accepted'
+    except Exception as e:  # pylint: disable=broad-except
+        r = type(e).__name__
+    out.count('probe:y-as-python-list:' + r)
+    y32 = np.array([0.3, 0.7, 0.1, 0.5], dtype='float32')
+    try:
+        a = list(rg.regrid(np.array(x), y32, 0.1))
+        b = list(rg.regrid(np.array(x), y32.astype('float64'), 0.1))
+        r = 'same-as-float64' if a == b else 'differs-from-float64-of-the-same-numbers'
+    except Exception as e:  # pylint: disable=broad-except
+        r = type(e).__name__
+    out.count('probe:float32-with-step-0.1:' + r)
+
+
+FIXED_HISTORIES = [
+    # the example of regrid.py's own __main__, twice, then with another step
+    dict(form='x-list', series=[dict(x=[0.0, 1.0, 2.0, 3.0, 4.0], y=[2.0, 5.2, -1.3, -1.2, 10.0])],
+         calls=[dict(fn='regrid', i=0, step=1.0, stepform='float'), dict(fn='regrid', i=0, step=1.0, stepform='float'),
+                dict(fn='regrid', i=0, step=0.5, stepform='float')]),
+    dict(form='f64', series=[dict(x=[0.0, 600.0, 1200.0, 1800.0], y=[-12.5, -3.0, -7.25, 4.0])],
+         calls=[dict(fn='regrid', i=0, step=2.5, stepform='float'), dict(fn='mapping', i=None, step=2.5, stepform='float'),
+                dict(fn='regrid', i=0, step=0.5, stepform='float')]),
+    dict(form='f64-readonly', series=[dict(x=[0.0, 1.0, 2.0], y=[0.5, 3.5, -2.0])],
+         calls=[dict(fn='regrid', i=0, step=0.1, stepform='float'), dict(fn='mapping', i=None, step=0.1, stepform='float')]),
+]
 
 
 FIXED = [
@@ -289,14 +482,28 @@ def run(ctx, out):
         series.append(G.gen_series(rng, cls, xcls, step))
         k += 1
     series += [G.gen_malformed(rng) for _ in range(max(12, nfl // 60))]
-    check_regrid(series, out, 'fl_regrid')
+    # call forms and call histories: own stream, every form x every kind of history in turn
+    crng = C.rng_for(seed, PROP, 'calls')
+    fns = ['regrid', 'regrid', 'mapping', 'mixed']
+    histories = list(FIXED_HISTORIES)
+    for k in range(160 if tier == 'quick' else 1600):
+        histories.append(G.gen_call_history(crng, fns[k % len(fns)], G.CALL_FORMS[(k // len(fns)) % len(G.CALL_FORMS)]))
+    extra_r, extra_m = check_calls(histories, out)
+    call_probes(out)
+    check_regrid(series, out, 'fl_regrid', extra=extra_r)
     sets = [G.gen_series_set(rng) for _ in range(nmap)]
-    check_mapping(sets, out, 'fl_mapping')
+    check_mapping(sets, out, 'fl_mapping', extra=extra_m)
     out.rule = ('FL: seeded series of 10 shapes (rising, falling, non-monotone, flat pairs, samples exactly on a '
                 'level, one to three ulp beside it, denormals around level 0, zigzag, two-point rises, wide '
                 'jumps) x 4 kinds of abscissae (indices, UNIX epochs ~1.4e9, offsets, irregular floats) x steps '
                 '{1, .5, .1, .3, 2.5} (+ a few others), plus malformed inputs (unequal lengths, inf, nan, empty, '
                 'single sample) through regrid.regrid; sets of 1-5 series through build_head_mapping. '
+                'Call forms and histories: 160 (x10 thorough) sets of 1-4 series handed over as float64 arrays, strided / '
+                'reversed / column views, read-only arrays, int64, int32, float32 (numbers exact in that type, steps '
+                'powers of two), abscissae in a list, x steps as float / numpy.float64 / int, through 1-3 calls of '
+                'regrid / build_head_mapping with the SAME objects (same step again, another step): after every call '
+                'the objects are compared bit for bit with a pristine copy and the result is judged by the same oracle '
+                'and by the model against the pristine numbers (non-trivial: a second or third call judged right). '
                 'Non-trivial: >= 2 reported crossings and (a level reported more than once, or a sample whose '
                 'scaled value is an integer, or a flat pair) for regrid; a level shared by >= 2 series and a '
                 'level crossed more than once by one series for the mapping; distinct by the input values.')
@@ -315,7 +522,11 @@ def run(ctx, out):
 
 def replay(case, out):
     C.import_spowtd()
-    if case['level'] == 'FL-regrid':
+    if case['level'] == 'FL-calls':
+        extra_r, extra_m = check_calls([case], out)
+        check_regrid([], out, 'replay', extra=extra_r)
+        check_mapping([], out, 'replay_m', extra=extra_m)
+    elif case['level'] == 'FL-regrid':
         check_regrid([dict(x=case['x'], y=case['y'], step=case['step'])], out, 'replay')
     else:
         check_mapping([dict(step=case['step'], series=case['series'])], out, 'replay')
